@@ -228,6 +228,7 @@ class Interp:
         self.known_eq = {}
         self.known_ne = {}
         self.iter_lens = {}
+        self.path_types = {}        # types learnt from isinstance() forks
         self.exact = True
         self.notes = []
         self.steps = 0
@@ -388,6 +389,12 @@ class Interp:
         val = (c == 0)
         self.assumed[v] = val
         self.assumptions.append((v, val))
+        if isinstance(v, T) and v.op == 'isinstance' and val and \
+                isinstance(v.args[1], T) and len(v.args[1].args) == 1:
+            ty = v.args[1].args[0]
+            name = getattr(ty, 'name', None)
+            if name in ('str', 'bytes', 'int', 'float', 'bool'):
+                self.path_types[v.args[0]] = name
         if isinstance(v, T) and v.op == 'cmp':
             op, a, b = v.args
             if op == '==' and isinstance(b, K):
